@@ -262,7 +262,9 @@ impl BreakerBase {
     /// Return true only if current goroutine successfully accomplished the transformation.
     pub fn from_open_to_half_open(&self, ctx: &EntryContext) -> bool {
         let mut state = self.state.lock().unwrap();
-        if *state == State::Open {
+        // the deadline is re-read under the state lock: the caller may have seen "Open, timeout
+        // elapsed" in an Open period that has ended since (probe elected, failed, breaker re-opened)
+        if *state == State::Open && self.retry_timeout_arrived() {
             *state = State::HalfOpen;
             let listeners = state_change_listeners().lock().unwrap();
             for listener in &*listeners {
